@@ -85,7 +85,23 @@ KNOWN = {
 }
 
 EPS = float(np.finfo(float).eps)
-_OPEN_BOUND_MSG = re.compile(r"^(\w+) needs to be [<>] (\S+), got: (\S+)$")
+_OPEN_BOUND_MSG = re.compile(r"^([\w-]+) needs to be [<>] (\S+), got: (.*)$")
+
+
+def _hits_open_bound(msg):
+    """ValueError of a parameter setter whose value sits exactly on an open bound?"""
+    m = _OPEN_BOUND_MSG.match(msg.strip())
+    if not m:
+        return False
+    try:
+        b = float(m.group(2))
+        txt = m.group(3).strip()
+        if txt.startswith("["):  # anis: numpy prints 8 significant digits
+            vals = [float(t) for t in txt.strip("[]").split()]
+            return any(abs(v - b) <= 1e-7 * max(abs(b), 1e-300) for v in vals)
+        return float(txt) == b
+    except ValueError:
+        return False
 CURVE_TOL = 1e-4  # * sill   (DESIGN C10 (i))
 # scipy's termination thresholds are absolute (gtol=1e-8 on the gradient of
 # 0.5*sum((r/sigma)^2), scaled by the distance to the bounds in 'trf').  At an
@@ -97,6 +113,18 @@ CURVE_TOL = 1e-4  # * sill   (DESIGN C10 (i))
 ABS_TOL = 3e-4
 R2_TOL = 1e-6  # r2 >= 1 - R2_TOL
 PARAM_TOL = 1e-3  # relative to the parameter's natural scale
+# Recovery of the curve is only demanded in the identifiable configuration:
+# SMIN bounds the smallest singular value of the relative Jacobian of the
+# oracle curve at the truth (curve change / sill per unit relative parameter
+# change in the least sensitive direction): below 0.05 a 30 % move along that
+# direction changes the curve by < 1.5 % of the sill, the flat curved valleys
+# where trust-region solvers legitimately stop on xtol/ftol or run out of
+# evaluations; with >= 2 free shape parameters (TPL: hurst, alpha, len_low) the
+# cost has secondary optima inside the +-30 % box (observed: 'trf' ends with
+# gtol satisfied at hurst -> 1).  Outside this configuration only the
+# monotone-cost assertion and all state assertions apply.
+SMIN = 0.05
+MAX_SHAPE = 1
 NEAR = 0.3
 
 GEO_SCALES = [1.0, 57.29577951308232, 6371.0]
@@ -156,7 +184,10 @@ def _scale(name, tv):
     if name in ("var", "nugget"):
         return tv["var"] + tv["nugget"]
     if name == "len_low":
-        return tv["len_scale"] + tv["len_low"]
+        # non-linear, enters like a length: relative to itself; a vanishing
+        # lower cut-off is "near" only on the scale of a tenth of len_scale
+        # (the profile cost in len_low is bimodal beyond that, see report)
+        return max(tv["len_low"], 0.1 * tv["len_scale"])
     if name in ("nu", "alpha", "hurst"):
         return max(abs(tv[name]), 0.25)
     return abs(tv[name])
@@ -671,21 +702,39 @@ def _weights_arg(case, n, dim):
     raise common.HarnessError(f"unknown weights kind {k}")
 
 
-def _sigma_eff(case, x, dim):
-    """Harmonic rms of the sigmas the documented weights translate to."""
+def _sigma_vec(case, x, dim):
+    """sigmas handed to curve_fit according to the documented weights."""
     w = case["weights"]
     k = w["kind"]
     xl = np.concatenate(_blocks(case, x, [1.0] * (dim - 1))) if case["mode"] != "dir" else np.tile(x, dim)
     if k == "none":
-        sig = np.ones_like(xl)
-    elif k == "inv":
-        sig = 1.0 + xl
-    elif k in ("array", "array_full", "list"):
+        return np.ones_like(xl)
+    if k == "inv":
+        return 1.0 + xl
+    if k in ("array", "array_full", "list"):
         ww = np.array(w["w"], dtype=float)
-        sig = 1.0 / (np.tile(ww, xl.size // ww.size))
-    else:
-        sig = 1.0 / np.asarray(_weights_arg(case, x.size, dim)(xl), dtype=float)
+        return 1.0 / (np.tile(ww, xl.size // ww.size))
+    return 1.0 / np.asarray(_weights_arg(case, x.size, dim)(xl), dtype=float)
+
+
+def _sigma_eff(case, x, dim):
+    """Harmonic rms of the sigmas."""
+    sig = _sigma_vec(case, x, dim)
     return float(np.sqrt(sig.size / np.sum(1.0 / sig**2)))
+
+
+def _cost(loss, f):
+    """scipy.optimize.least_squares cost 0.5*sum(rho(f^2)) (f_scale = 1)."""
+    z = np.asarray(f, dtype=float) ** 2
+    if loss == "linear":
+        rho = z
+    elif loss == "soft_l1":
+        rho = 2.0 * (np.sqrt(1.0 + z) - 1.0)
+    elif loss == "huber":
+        rho = np.where(z <= 1.0, z, 2.0 * np.sqrt(z) - 1.0)
+    else:
+        raise common.HarnessError(f"loss {loss}")
+    return 0.5 * float(np.sum(rho))
 
 
 def _same(a, b, ulps=0):
@@ -873,20 +922,55 @@ def check_fit(case, rec):
                 near &= d <= NEAR * (1 + 1e-9)
                 far10 |= d >= 0.1
     well_posed = y.size >= k_free  # at least as many data as free parameters
-    expect_recovery = consistent and near and well_posed
+    reachable = consistent and near and well_posed
     keys = list(free) + ([f"anis{i}" for i in range(dim - 1)] if anis_fit else [])
-    sens = _sensitivity(case, keys, plan, bnd, x, y) if expect_recovery else None
+    sens = _sensitivity(case, keys, plan, bnd, x, y) if reachable else None
+    n_shape = sum(1 for nm in free if nm not in ("var", "len_scale", "nugget"))
+    # "identifiable configuration" (DESIGN C10 (ii)): see SMIN / MAX_SHAPE
+    identifiable = sens is not None and sens[1] >= SMIN and n_shape <= MAX_SHAPE
+    expect_recovery = reachable and identifiable
     rec.note("smin", None if sens is None else sens[1])
     constraint_active = (
         any(stat[nm] != "fit" for nm in names) or plan["sill"] is not None or bool(case["bounds"]) or mode != "iso" or not isinstance(anis_arg, bool)
     )
     rec.nontrivial(bool(constraint_active and far10))
-    rec.label(
-        "recovery_expected"
-        if expect_recovery
-        else ("underdetermined" if consistent and near else "consistent_far_start" if consistent else "truth_unreachable")
-    )
+    if expect_recovery:
+        rec.label("recovery_expected")
+    elif reachable:
+        rec.label("reachable_but_" + ("multi_shape" if n_shape > MAX_SHAPE else "ill_conditioned"))
+    else:
+        rec.label("underdetermined" if consistent and near else "consistent_far_start" if consistent else "truth_unreachable")
 
+    # ---- start of the optimisation as documented (for the monotone-cost check)
+    start_vals, start_anis = None, list(pre["anis"])
+    if all(starts.get(nm) is not None for nm in free):
+        sv_ = {nm: pre[nm] for nm in names}
+        ok = True
+        for nm in free:
+            lo, hi, _ty = bnd[nm]
+            if nm == "var" and plan["var_cap"] is not None:
+                hi = plan["var_cap"]
+            ok &= _strictly_inside(starts[nm], lo, hi)  # otherwise a default from the bounds is used
+            sv_[nm] = float(starts[nm])
+        if anis_fit:
+            a0 = _start_of(case, "anis", pre)
+            lo, hi, _ty = bnd["anis"]
+            if a0 is None or not all(_strictly_inside(a, lo, hi) for a in a0):
+                ok = False
+            else:
+                start_anis = [float(a) for a in a0]
+        if plan["sill"] is not None:
+            s_ = plan["sill"]
+            if plan.get("nugget_low"):
+                sv_["nugget"] = bnd["nugget"][0]
+                sv_["var"] = s_ - sv_["nugget"]
+            elif stat["var"] == "derived":
+                sv_["var"] = s_ - sv_["nugget"]
+            else:
+                sv_["nugget"] = s_ - sv_["var"]
+            ok &= sv_["nugget"] >= 0 and sv_["var"] > 0
+        if ok:
+            start_vals = sv_
     try:
         with quiet():
             res = model.fit_variogram(xx, yy, **kw)
@@ -902,8 +986,7 @@ def check_fit(case, rec):
     except Exception as exc:  # noqa: BLE001
         vtags = dict(tags, kind="exception", exc=type(exc).__name__)
         if isinstance(exc, ValueError) and case["method"] == "dogbox":
-            hit = _OPEN_BOUND_MSG.match(str(exc))
-            if hit and float(hit.group(2)) == float(hit.group(3)):
+            if _hits_open_bound(str(exc)):
                 # a dogbox iterate sits exactly on an open bound of the model
                 vtags["kind"] = "dogbox_open_bound"
                 if KNOWN["dogbox_open_bound"]:
@@ -1033,26 +1116,48 @@ def check_fit(case, rec):
         r2_lib = None
         post = dict(post, var=vals["var"], nugget=vals["nugget"])
 
+    # ---- the optimiser never returns something worse than its start
+    sig = _sigma_vec(case, x, dim)
+    c1 = _cost(case["loss"], resid / sig)
+    if start_vals is not None:
+        c0 = _cost(case["loss"], (_curve(case, start_vals, start_anis, x) - y) / sig)
+        rec.label("cost_checked")
+        if np.isfinite(c0):
+            rec.discrepancy("cost_increase", max(c1 - c0, 0.0), 1e-9 * c0 + 1e-300)
+            require(
+                c1 <= c0 * (1 + 1e-9),
+                f"fit result is worse than its documented start: cost {c1:.6g} > {c0:.6g} ({case['loss']} loss, weighted)",
+                dict(tags, kind="cost_increase"),
+            )
+
     # ---- (i) + (ii) recovery
     if not expect_recovery:
         return
     err = float(np.max(np.abs(resid)))
-    rec.note("stats", {"smin": None if sens is None else sens[1], "err": err / sill_t, "cls": cls, "method": case["method"], "k": k_free})
-    tol_c = CURVE_TOL * sill_t + ABS_TOL * _sigma_eff(case, x, dim)
-    well_scaled = tol_c <= 2.0 * CURVE_TOL * sill_t
-    rec.label("well_scaled" if well_scaled else "abs_tolerance_dominates")
+    # optimum on a bound of a free parameter (nugget=0, len_low=0, alpha=2, var=sill)?
+    at_bound = any(
+        (tv[nm] - bnd[nm][0]) <= 1e-9 * _scale(nm, tv) or (bnd[nm][1] - tv[nm]) <= 1e-9 * _scale(nm, tv) for nm in free
+    ) or (plan["var_cap"] is not None and "var" in free and plan["var_cap"] - tv["var"] <= 1e-9 * sill_t)
+    rec.note("stats", {"at_bound": at_bound, "sill": sill_t, "smin": None if sens is None else sens[1], "err": err / sill_t, "cls": cls, "method": case["method"], "k": k_free})
+    tol_c = CURVE_TOL * sill_t + (ABS_TOL * float(np.max(sig)) if at_bound else 0.0)
+    rec.label("optimum_on_bound" if at_bound else "optimum_interior")
+    if err > tol_c and _is_local_optimum(case, names, free, anis_fit, plan, bnd, post, x, y, sig, c1):
+        # curve_fit legitimately ended in a secondary optimum of the (weighted,
+        # robust) cost: no neighbouring parameter set has a lower oracle cost
+        rec.label("ended_in_secondary_optimum")
+        return
     rec.discrepancy("curve", err, tol_c)
     require(
         err <= tol_c,
         f"fitted curve misses the noise-free data by {err:.3g} (= {err / sill_t:.3g} sill, tol {tol_c:.3g}); para={ {k: (float(v) if k != 'anis' else list(map(float, v))) for k, v in para.items()} }",
         dict(tags, kind="curve"),
     )
-    if well_scaled:
-        # r2 >= 1 - 1e-6 is only meaningful when the relative budget is the binding one
-        rec.discrepancy("one_minus_r2", 1.0 - r2_or, R2_TOL)
-        require(1.0 - r2_or <= R2_TOL, f"r2 of the fitted model is 1-{1 - r2_or:.3g}", dict(tags, kind="r2"))
-        if r2_lib is not None:
-            require(1.0 - r2_lib <= R2_TOL, f"returned r2 is 1-{1 - r2_lib:.3g}", dict(tags, kind="r2"))
+    # r2 budget inflated like the (squared) curve budget
+    tol_r2 = R2_TOL * (tol_c / (CURVE_TOL * sill_t)) ** 2
+    rec.discrepancy("one_minus_r2", 1.0 - r2_or, tol_r2)
+    require(1.0 - r2_or <= tol_r2, f"r2 of the fitted model is 1-{1 - r2_or:.3g} (tol {tol_r2:.3g})", dict(tags, kind="r2"))
+    if r2_lib is not None:
+        require(1.0 - r2_lib <= tol_r2, f"returned r2 is 1-{1 - r2_lib:.3g} (tol {tol_r2:.3g})", dict(tags, kind="r2"))
     if sens is None:
         rec.label("sensitivity_not_finite")
         return
@@ -1078,6 +1183,43 @@ def check_fit(case, rec):
             dict(tags, kind="param", par=k),
         )
     rec.label("params_all_asserted" if n_assert == len(keys) else ("params_some_asserted" if n_assert else "params_none_asserted"))
+
+
+def _is_local_optimum(case, names, free, anis_fit, plan, bnd, post, x, y, sig, c1):
+    """No admissible change of a single free parameter by 0.1 % or 1 % of its
+    scale lowers the oracle's cost (same weights and loss) by more than 1e-6."""
+    truth = case["truth"]
+    tv = _truth_values(truth)
+    stat = plan["status"]
+    base = {nm: post[nm] for nm in names}
+    base_anis = list(post["anis"])
+    keys = list(free) + ([f"anis{i}" for i in range(len(base_anis))] if anis_fit else [])
+    for k in keys:
+        is_anis = k.startswith("anis")
+        lo, hi, _ty = bnd["anis"] if is_anis else bnd[k]
+        if k == "var" and plan["var_cap"] is not None:
+            hi = min(hi, plan["var_cap"])
+        v0 = base_anis[int(k[4:])] if is_anis else base[k]
+        sc = truth["anis"][int(k[4:])] if is_anis else _scale(k, tv)
+        for d in (1e-3, -1e-3, 1e-2, -1e-2):
+            v = min(max(v0 + d * sc, lo), hi)
+            if v == v0 or not _inside(v, (lo, hi, "cc")):
+                continue
+            if not is_anis and not _inside(v, (bnd[k][0], bnd[k][1], bnd[k][2])) and not (k == "var" and v == hi):
+                continue
+            vals, anis = dict(base), list(base_anis)
+            if is_anis:
+                anis[int(k[4:])] = v
+            else:
+                vals[k] = v
+            if k == "var" and plan["sill"] is not None and stat["nugget"] == "derived":
+                vals["nugget"] = plan["sill"] - v
+                if vals["nugget"] < 0:
+                    continue
+            c = _cost(case["loss"], (_curve(case, vals, anis, x) - y) / sig)
+            if np.isfinite(c) and c < c1 * (1.0 - 1e-6):
+                return False
+    return True
 
 
 def _sensitivity(case, keys, plan, bnd, x, y):
